@@ -7,7 +7,9 @@ RULE = ('as C01 (accumulating updaters only, so all updates commute); every comp
         'with independently shuffled insertion orders of the processes dict, the topology dict, the ports of every '
         'process and the ports of every topology entry; the emitted trajectories and the fronts after every call '
         'must be identical, and the first run must match the model. Steps of one dependency layer: the engine stream of C05 '
-        '(random flows; steps that read what other steps of their layer write) with the same-snapshot oracle. '
+        '(random flows; steps that read what other steps of their layer write) with the same-snapshot oracle; the live '
+        'stream of C07 (structural updates applied at the instant at which processes and steps are started: what '
+        'they are handed must be the committed hierarchy). '
         'Non-trivial: >=2 processes and >=2 invocations.')
 ASSUMPTIONS = __import__('harness.c01', fromlist=['x']).ASSUMPTIONS + [
     'timesteps and conditions are functions of the viewed state (not of poll counts), updaters commute',
@@ -33,6 +35,9 @@ def generate(seed, tier, enlarged=False):
     # their layer write), judged here by its same-snapshot oracle
     from harness import c05
     cases += [c for c in c05.generate(seed, tier, enlarged) if c['kind'] == 'engine']
+    # the state a process or step is given when structural updates happen at the same instant: live stream of C07
+    from harness import live
+    cases += [live.gen_case(rng) for _ in range(n // 6)]
     return cases
 
 
@@ -63,9 +68,18 @@ def run(cases, tier='quick', seed=0):
         @staticmethod
         def oracle(c, ob, rng):
             return [(m, sg) for m, sg in c05.oracle(c, ob, rng) if sg == 'layer-snapshot']
+    from harness import live
+
+    class Live:
+        __name__ = 'harness.live'
+        IMPORTS, CHECK_FN, BAD_TERM = sched.IMPORTS, sched.CHECK_FN, sched.BAD_TERM
+        run_impl, oracle = staticmethod(live.run_impl), staticmethod(live.oracle)
+        nontrivial, stat_key = staticmethod(live.nontrivial), staticmethod(live.stat_key)
+        render = staticmethod(lambda c, ob: None)     # oracle only
     return common.merge_streams(cases, [
         (lambda c: c['kind'] == 'sched', lambda cs: run_sched(cs, tier, seed)),
-        (lambda c: c['kind'] == 'engine', lambda cs: common.generic_run(Layer, cs, seed, shard=200))])
+        (lambda c: c['kind'] == 'engine', lambda cs: common.generic_run(Layer, cs, seed, shard=200)),
+        (lambda c: c['kind'] == 'live', lambda cs: common.generic_run(Live, cs, seed, shard=200))])
 
 
 def run_sched(cases, tier='quick', seed=0):
